@@ -34,6 +34,7 @@ def suite_ok():
 def main():
     args = sys.argv[1:]
     tier, seeds, only, which, allchecks, match, tag = "quick", [1], None, "mutants", False, None, ""
+    skip_suite = False
     i = 0
     while i < len(args):
         if args[i] == "--tier":
@@ -48,6 +49,8 @@ def main():
             match = args[i + 1].split(","); i += 2
         elif args[i] == "--tag":
             tag = "_" + args[i + 1]; i += 2
+        elif args[i] == "--skip-suite":
+            skip_suite = True; i += 1
         elif args[i] == "--all-checks":
             allchecks = True; i += 1
         else:
@@ -70,7 +73,10 @@ def main():
             results.append(dict(property=pid, patch=name, status="does-not-apply", detail=out[-300:]))
             print(pid, name, "DOES NOT APPLY"); continue
         try:
-            ok, tail = suite_ok()
+            ok, tail = (True, "") if skip_suite else suite_ok()
+            if skip_suite:
+                rcb, outb = sh("go build ./...", cwd=REPO, env=clean_env())
+                ok, tail = rcb == 0, outb[-600:]
             if not ok:
                 results.append(dict(property=pid, patch=name, status="suite-fails", detail=tail[-600:]))
                 print(pid, name, "SUITE FAILS (not a valid mutant)"); continue
